@@ -4,6 +4,8 @@ import (
 	"bytes"
 	"context"
 	"fmt"
+	"google.golang.org/protobuf/types/known/anypb"
+	"google.golang.org/protobuf/types/known/wrapperspb"
 	"io"
 	"net/http"
 	"net/http/httptest"
@@ -21,6 +23,17 @@ func init() { runners["C14"] = runC14 }
 
 // an error whose gRPC status has an arbitrary code, including OK
 type codeErr struct{ c uint32 }
+
+// detailErr: a status with three details, the second of which no codec can encode
+type detailErr struct{ c uint32 }
+
+func (e detailErr) Error() string { return fmt.Sprintf("code %d with details", e.c) }
+func (e detailErr) GRPCStatus() *status.Status {
+	good, _ := anypb.New(wrapperspb.String("fine"))
+	sp := status.New(codes.Code(e.c), "m").Proto()
+	sp.Details = []*anypb.Any{good, {TypeUrl: "type.googleapis.com/\xff\xfe", Value: []byte{1}}, good}
+	return status.FromProto(sp)
+}
 
 func (e codeErr) Error() string              { return fmt.Sprintf("code %d", e.c) }
 func (e codeErr) GRPCStatus() *status.Status { return status.New(codes.Code(e.c), "m") }
@@ -181,6 +194,43 @@ func runC14(o *hx.Out, r *hx.Rand, thorough bool) {
 			}
 			if got != want {
 				o.Violate("caller does not recover the handler's code", map[string]interface{}{"code": c, "renderer": rd.name}, got, want)
+			}
+		}
+		// the same with error details, one of which the codec cannot encode (an Any whose type URL is not
+		// UTF-8): the code still travels in the status header
+		for i, c := range e2e {
+			if i%4 != 0 {
+				continue
+			}
+			ret = detailErr{c}
+			for _, ctype := range []string{"proto", "json"} {
+				var got uint32
+				if ctype == "proto" {
+					got = codeOfErr(ch.Invoke(context.Background(), "/verif.Svc/U", &hx.Msg{}, &hx.Msg{}))
+				} else {
+					// a raw JSON request: the details are then encoded with the JSON codec
+					rq, _ := http.NewRequest("POST", ts.URL+"/verif.Svc/U", strings.NewReader("{}"))
+					rq.Header.Set("Content-Type", httpgrpc.ApplicationJson)
+					resp, err := http.DefaultClient.Do(rq)
+					if err != nil {
+						continue
+					}
+					st := httpgrpc.VerifStatFromResponse(resp)
+					resp.Body.Close()
+					got = uint32(status.Code(st.Err()))
+					if st.Err() == nil {
+						got = 0
+					}
+				}
+				want := c
+				if c == 0 {
+					want = 13
+				}
+				d := map[string]interface{}{"code": c, "renderer": rd.name, "content_type": ctype, "details": "three, the second cannot be encoded", "client_code": got}
+				o.Case("end_to_end_details_"+rd.name, fmt.Sprintf("EndToEnd %d %d %d", c, rd.http, got), d)
+				if got != want {
+					o.Violate("caller does not recover the handler's code when an error detail cannot be encoded", d, got, want)
+				}
 			}
 		}
 		ts.Close()
